@@ -2,6 +2,7 @@
 // exhaustive single-fault spaces, minimisation, replay.
 #include "simb.hpp"
 #include <algorithm>
+#include <functional>
 #include <cerrno>
 #include <csignal>
 #include <dirent.h>
@@ -205,6 +206,39 @@ std::string stress_input(const std::string &fam, long n) {
 		for (long i = 0; i < n; i++) s += "\tint m" + std::to_string(i) + (i % 5 == 0 ? " : 3" : "") + ";\n";
 		s += "};\nstruct big b = { 1, 2 };\nint get(struct big *p) { return p->m" + std::to_string(n > 0 ? n - 1 : 0) + "; }\n";
 		if (n == 0) s = "struct e { int x; } b;\n";
+	} else if (fam == "switchfib") {
+		// case labels inserted in level order of a minimal AVL (Fibonacci) tree of height n:
+		// the tallest tree a given number of labels can produce, built without a single rotation
+		struct Node { long l, r, key; };
+		std::vector<Node> nodes;
+		std::vector<long> memo((size_t)n + 2, -1);
+		// build shape iteratively: tree(h) = node(tree(h-1), tree(h-2)); shapes are shared, keys assigned by in-order walk
+		std::function<long(long)> build = [&](long h) -> long {
+			if (h <= 0) return -1;
+			Node nd{build(h - 1), build(h - 2), 0};
+			nodes.push_back(nd);
+			return (long)nodes.size() - 1;
+		};
+		long root = build(n);
+		long next = 0;
+		std::vector<std::pair<long, int>> st;
+		if (root >= 0) st.push_back({root, 0});
+		while (!st.empty()) {
+			auto &top = st.back();
+			if (top.second == 0) { top.second = 1; if (nodes[top.first].l >= 0) st.push_back({nodes[top.first].l, 0}); }
+			else if (top.second == 1) { nodes[top.first].key = next++; top.second = 2; long r = nodes[top.first].r; if (r >= 0) st.push_back({r, 0}); }
+			else st.pop_back();
+		}
+		s = "int f(long x) {\n\tswitch (x) {\n";
+		std::vector<long> q;
+		if (root >= 0) q.push_back(root);
+		for (size_t i = 0; i < q.size(); i++) {
+			const Node &nd = nodes[q[i]];
+			s += "\tcase " + std::to_string(nd.key) + ": return " + std::to_string(nd.key & 7) + ";\n";
+			if (nd.l >= 0) q.push_back(nd.l);
+			if (nd.r >= 0) q.push_back(nd.r);
+		}
+		s += "\t}\n\treturn -1;\n}\n";
 	} else if (fam == "anondesig") {
 		// a member reached through n levels of anonymous structs/unions: the designator path grows one level per nesting
 		s = "struct s { ";
@@ -384,6 +418,7 @@ static const std::vector<StressFam> &stress_fams() {
 		{"strings", {1, 33, 300}, false},
 		{"longcomment", {255, 256, 4096, 100000}, false},
 		{"structmembers", {1, 32, 33, 65, 500}, false},
+		{"switchfib", {3, 8, 13, 18, 22, 25}, false},
 		{"anondesig", {0, 1, 2, 14, 15, 16, 17, 29, 30, 31, 32, 33, 34, 40, 64}, false},
 		{"mixdesig", {0, 1, 8, 15, 16, 17, 18, 30, 31, 32, 33, 40}, false},
 		{"macrorepl", {0, 1, 2, 3, 4, 5, 6, 7, 10, 11, 12, 13, 23, 24, 25, 26, 49, 50, 51, 52, 101, 102, 103, 300}, true},
@@ -431,8 +466,10 @@ static void set_stress(Plan &p, Rng &r, bool big) {
 	long knob = f.knobs[r.below((uint32_t)(big ? nk : (nk > 2 ? nk - 1 : nk)))];
 	VFile v;
 	v.name = std::string("stress/") + f.name + ".c";
-	v.source = std::string("stress:") + f.name + ":" + std::to_string(knob);
 	v.data = stress_input(f.name, knob);
+	// multi-megabyte members are run once per check in the "stress" space, not under sampled faults
+	for (size_t k = nk; v.data.size() > (1u << 20) && k-- > 0;) { knob = f.knobs[k]; v.data = stress_input(f.name, knob); }
+	v.source = std::string("stress:") + f.name + ":" + std::to_string(knob);
 	p.files.push_back(v);
 	p.target = 1 + (int)r.below(3);
 	p.pponly = f.pponly || r.coin(1, 10);
@@ -628,6 +665,11 @@ static const Space &space(const std::string &name) {
 	if (it != g_spaces.end()) return it->second;
 	Space s;
 	s.name = name;
+	if (name == "stress") {
+		// every (family, knob) pair of the stress family once, fault-free: the largest knobs are too rare under sampling
+		for (auto &f : stress_fams()) { s.total += f.knobs.size(); s.cum.push_back(s.total); }
+		return g_spaces[name] = s;
+	}
 	for (size_t i = 0; i < g_corpus.size(); i++) { s.total += space_size_for(name, i); s.cum.push_back(s.total); }
 	return g_spaces[name] = s;
 }
@@ -637,6 +679,17 @@ static Plan space_plan(const std::string &name, uint64_t index, const std::strin
 	index %= s.total ? s.total : 1;
 	size_t ci = (size_t)(std::upper_bound(s.cum.begin(), s.cum.end(), index) - s.cum.begin());
 	uint64_t off = index - (ci ? s.cum[ci - 1] : 0);
+	if (name == "stress") {
+		const StressFam &f = stress_fams()[ci];
+		Plan p;
+		p.prop = prop;
+		long knob = f.knobs[off];
+		p.files.push_back({std::string("stress/") + f.name + ".c", std::string("stress:") + f.name + ":" + std::to_string(knob), stress_input(f.name, knob)});
+		p.target = 1 + (int)(index % 3);
+		p.pponly = f.pponly;
+		p.label = "space:stress";
+		return p;
+	}
 	Rng dummy(0);
 	Plan p;
 	p.prop = prop;
